@@ -215,6 +215,22 @@ Definition is_memo_loc (l : cloc) : bool :=
 
 Definition call_wf (k : call) : bool := forallb is_memo_loc (c_in k ++ c_out k).
 
+(* ---- when do threads satisfy the footprint condition?  Stated on the
+   threads themselves: ti is the reader, tj the writer ---- *)
+Definition thread_wf (t : thread) : bool :=
+  match t with TCall k => call_wf k | TSetOpt _ _ => true end.
+
+Definition pair_ok (ti tj : thread) : Prop :=
+  match ti, tj with
+  | TCall ki, TCall kj => c_mr ki <> c_mr kj       (* different MultiRef objects *)
+  | TCall ki, TSetOpt c _ => c_client ki <> c      (* options set on a client nobody is calling through *)
+  | TSetOpt _ _, _ => True                         (* set_options reads nothing *)
+  end.
+
+Definition threads_ok (ts : list thread) : Prop :=
+  (forall t, In t ts -> thread_wf t = true) /\
+  (forall i j ti tj, i <> j -> nth_error ts i = Some ti -> nth_error ts j = Some tj -> pair_ok ti tj).
+
 (* ---- running threads under a schedule (used by the harness and by the
    refutation witness) ---- *)
 
